@@ -339,6 +339,21 @@ class Expander(object):
                 if r is not None:
                     return r
             return [st]
+        if isinstance(st, ast.If) and isinstance(st.test, ast.BoolOp) and len(st.test.values) >= 2:
+            # `if A and self._h(..): B else: C`  ->  `if A: (if self._h(..): B else: C) else: C`   (same evaluation order)
+            # `if A or  self._h(..): B else: C`  ->  `if A: B else: (if self._h(..): B else: C)`
+            last = st.test.values[-1]
+            core = last.operand if isinstance(last, ast.UnaryOp) and isinstance(last.op, ast.Not) else last
+            others_have = any(isinstance(c, ast.Call) and self.helper_for(func, c) is not None for v in st.test.values[:-1] for c in ast.walk(v))
+            if isinstance(core, ast.Call) and self.helper_for(func, core) is not None and not others_have:
+                rest = st.test.values[0] if len(st.test.values) == 2 else ast.copy_location(ast.BoolOp(op=st.test.op, values=st.test.values[:-1]), st.test)
+                inner = ast.copy_location(ast.If(test=last, body=st.body, orelse=st.orelse), st)
+                if isinstance(st.test.op, ast.And):
+                    outer = ast.copy_location(ast.If(test=rest, body=[inner], orelse=copy.deepcopy(st.orelse)), st)
+                else:
+                    inner.body = copy.deepcopy(st.body)
+                    outer = ast.copy_location(ast.If(test=rest, body=st.body, orelse=[inner]), st)
+                return self.expand_stmt(func, outer, caller_names, stack, depth, owner)
         if isinstance(st, ast.If):
             test = st.test
             neg = False
@@ -504,3 +519,22 @@ def expanded_program(repo, policy='new'):
     P.view = 'inlined'
     # summaries computed lazily from the rewritten trees
     return P
+
+
+# make ast.unparse (used in messages and when debugging) print the two synthetic statements
+def _visit_InlineBlock(self, node):
+    self.fill('# <inlined %s>' % getattr(node, 'helper', '?'))
+    for st in node.body:
+        self.traverse(st)
+    self.fill('# </inlined>')
+
+
+def _visit_InlineReturn(self, node):
+    self.fill('pass  # end of inlined helper')
+
+
+try:
+    ast._Unparser.visit_InlineBlock = _visit_InlineBlock
+    ast._Unparser.visit_InlineReturn = _visit_InlineReturn
+except AttributeError:       # pragma: no cover
+    pass
